@@ -42,6 +42,10 @@ MUTANTS = [
       "        testv_is_good = self._evaluate_test_vectors(\n            test_and_write_vectors,\n            shares,\n        )\n",
       "        remaining_shares = self._evaluate_write_vectors(bucketdir, secrets, test_and_write_vectors, shares)\n"
       "        testv_is_good = self._evaluate_test_vectors(\n            test_and_write_vectors,\n            shares,\n        )\n", "C24.1"),
+    M("written-share-not-remembered", SRV, "                remaining_shares[sharenum] = shares[sharenum]\n", "                pass\n", "C24.1"),
+    M("leases-on-all-collected-shares", SRV, "                self._add_or_renew_leases(remaining_shares.values(), lease_info)",
+      "                self._add_or_renew_leases(shares.values(), lease_info)", "C24.1",
+      note="shares unlinked by new_length == 0 would get a lease renewal on a deleted file"),
     # ---- C24.2 effect freedom
     M("collect-creates-bucketdir", SRV, "        shares = {}\n        if os.path.isdir(bucketdir):",
       "        shares = {}\n        fileutil.make_dirs(bucketdir)\n        if os.path.isdir(bucketdir):", "C24.2"),
@@ -59,6 +63,8 @@ MUTANTS = [
     M("result-reads-again", SRV, "        return (testv_is_good, read_data)",
       "        return (testv_is_good, self._evaluate_read_vectors(read_vector, shares))", "C24.3"),
     M("result-always-success", SRV, "        return (testv_is_good, read_data)", "        return (True, read_data)", "C24.3"),
+    M("read-stage-drops-results", SRV, "            read_data[sharenum] = share.readv(read_vector)\n", "            share.readv(read_vector)\n", "C24.3"),
+    M("read-stage-returns-nothing", SRV, "        return read_data\n\n    def _evaluate_write_vectors", "        return {}\n\n    def _evaluate_write_vectors", "C24.3"),
     # ---- C24.4 collect loop
     M("only-first-share-checked", SRV, "                msf.check_write_enabler(write_enabler, si_s)\n",
       "                if not shares:\n                    msf.check_write_enabler(write_enabler, si_s)\n", "C24.4"),
@@ -69,6 +75,7 @@ MUTANTS = [
       "                shares[sharenum] = msf\n                break\n        return shares", "C24.4"),
     M("check-on-other-object", SRV, "                msf.check_write_enabler(write_enabler, si_s)\n                shares[sharenum] = msf\n",
       "                msf.check_write_enabler(write_enabler, si_s)\n                shares[sharenum] = MutableShareFile(filename, self)\n", "C24.4"),
+    M("collect-skips-existing-directory", SRV, "        shares = {}\n        if os.path.isdir(bucketdir):", "        shares = {}\n        if not os.path.isdir(bucketdir):", "C24.4"),
     # ---- C24.5 check_write_enabler
     M("enabler-compare-inverted", MUT, "        if not timing_safe_compare(write_enabler, real_write_enabler):",
       "        if timing_safe_compare(write_enabler, real_write_enabler):", "C24.5"),
